@@ -267,8 +267,8 @@ func (d *docGen) document() (*jnode, *osm.OSM) {
 		o.Version = "0.6"
 	case 2:
 		d.versionForm = "string"
-		doc.set("version", js("0.6"))
-		o.Version = "0.6"
+		o.Version = []string{"0.6", "0.6", "1", "0.7-beta", ""}[d.rng.Intn(5)]
+		doc.set("version", js(o.Version))
 	case 3:
 		d.versionForm = "integer"
 		v := []int64{1, 6, 100000}[d.rng.Intn(3)] // below 1e6: every reasonable rendering of the number agrees
@@ -295,6 +295,10 @@ func (d *docGen) document() (*jnode, *osm.OSM) {
 		o.License = osm.License
 		doc.set("license", js(o.License))
 	}
+	if d.rng.Intn(6) == 0 {
+		// the OSM API writes the bounds as a top-level key: unknown to the library, ignored
+		doc.set("bounds", jobj().set("minlat", jdec(515, 1)).set("minlon", jint(-1)).set("maxlat", jint(52)).set("maxlon", jint(0)))
+	}
 	n := d.minElems + d.rng.Intn(5)
 	if d.rng.Intn(6) == 0 {
 		n += 4 + d.rng.Intn(8) // longer documents: position-dependent behaviour
@@ -317,6 +321,9 @@ func (d *docGen) damage(doc *jnode, i int) string {
 		return "elements-object"
 	}
 	e := es.arr[d.rng.Intn(len(es.arr))]
+	if i%2 == 0 {
+		e = es.arr[len(es.arr)-1] // the last element: faults late in a document
+	}
 	typ := e.get("type").s
 	switch i % 14 {
 	case 0:
